@@ -52,12 +52,23 @@ def run(ctx, report, prop, spec_file, modules, reviewed=None, skip_sides=None, o
             layout_entry = {'ref': entry['ref'], 'layout': [{'vector': entry['vector']}]}
         else:
             layout_entry = entry
+        from .codecs import EVALUATED_CODECS
+        codec = EVALUATED_CODECS[name](ctx) if name in EVALUATED_CODECS else None
+        if codec is not None and not codec['evaluated']:
+            report.undecided.append('%s: codec not evaluable (%s): layout comparison with its reviewed difference' % (name, codec['why']))
         for side in sides:
             if side in skip_sides.get(name, ()):
                 continue
             report.count(R1)
             f = recv.resolve('_parse' if side == 'parse' else 'compose')
             report.touch(f)
+            if codec is not None and codec['evaluated']:
+                # decided against the wire format the entry describes by evaluating the function itself (sa/codecs.py)
+                report.count(R1, codec['runs'] // 2)
+                if side in codec['problems']:
+                    report.add(R1, '%s@%s/codec' % (c.construct, side), '%s side differs from %s: %s' % (
+                        'parser' if side == 'parse' else 'composer', entry.get('ref', 'the specification'), codec['problems'][side]))
+                continue
             cm = compare_with_spec(recv, side, ctx.canon, table, layout_entry)
             for u in cm.unknown:
                 if side == 'compose' and u.startswith('length link of ') and u.endswith('parser use not analysable') and \
